@@ -198,6 +198,29 @@ var positions = []position{
 	{name: "libtoplevelfrom", group: "macro", hole: 'E', tpls: map[string]string{
 		"lib": "{{ <E> }}{% macro mm(a) %}[{{ a }}]{% endmacro %}",
 		"top": "{% from '#lib#' import $mm$ %}{{ mm(1) }}"}},
+	// top-level code of an imported library that stands AFTER (between) the macro definitions: the macros
+	// the importer calls are already defined when the library's top-level code fails
+	{name: "libtoplevelafter", group: "macro", hole: 'E', tpls: map[string]string{
+		"lib": "{% macro mm(a) %}[{{ a }}]{% endmacro %}{% set q = <E> %}",
+		"top": "{% import '#lib#' as l %}{{ l.$mm$(1) }}"}},
+	{name: "libtoplevelfromafter", group: "macro", hole: 'E', tpls: map[string]string{
+		"lib": "{% macro mm(a) %}[{{ a }}]{% endmacro %}{{ <E> }}",
+		"top": "{% from '#lib#' import $mm$ as q %}{{ q(1) }}"}},
+	{name: "libtoplevelmid", group: "macro", hole: 'E', tpls: map[string]string{
+		"lib": "{% macro mm(a) %}[{{ a }}]{% endmacro %}{% if 1 %}{% set q = <E> %}{% endif %}{% macro nn(a) %}({{ a }}){% endmacro %}",
+		"top": "{% import '#lib#' as l %}{{ l.$mm$(1) }}"}},
+	{name: "libtoplevelinmacro", group: "macro", hole: 'E', tpls: map[string]string{
+		"lib": "{% macro mm(a) %}[{{ a }}]{% endmacro %}{% set q = <E> %}",
+		"top": "{% macro outer() %}{% import '#lib#' as l %}<{{ l.$mm$(1) }}>{% endmacro %}{{ $outer$() }}"}},
+	{name: "libtoplevelininclude", group: "macro", hole: 'E', tpls: map[string]string{
+		"lib":  "{% macro mm(a) %}[{{ a }}]{% endmacro %}{% set q = <E> %}",
+		"part": "{% from '#lib#' import $mm$ %}({{ mm(1) }})",
+		"top":  "x{% include '#part#' %}y"}},
+	{name: "libtoplevelnested", group: "macro", hole: 'E', tpls: map[string]string{
+		"lib2": "{% macro kk(a) %}{{ a }}{% endmacro %}{% set q = <E> %}",
+		"lib":  "{% macro mm(a) %}[{{ a }}]{% endmacro %}{% import '#lib2#' as k %}",
+		"top":  "{% import '#lib#' as l %}{{ l.$mm$(1) }}{% include '#part#' %}",
+		"part": "{% import '#lib#' as l2 %}{{ l2.$mm$(2) }}"}},
 	{name: "applybuiltin", group: "apply", hole: 'E', tpls: map[string]string{"top": "{% apply upper %}a{{ <E> }}b{% endapply %}"}},
 	{name: "applyharness", group: "apply", hole: 'E', tpls: map[string]string{"top": "{% apply @f %}a{{ <E> }}b{% endapply %}"}},
 	{name: "applynested", group: "apply", hole: 'E', tpls: map[string]string{"top": "{% apply @f %}{% apply lower %}{{ <E> }}{% endapply %}{% endapply %}"}},
@@ -785,12 +808,13 @@ type arm struct {
 }
 
 type plan struct {
-	arms   []arm
-	value  bool // failing callbacks return (value, err) instead of (nil/false, err)
+	arms   []arm // Nth == 0: a PERSISTENT fault — every invocation of the site fails
+	value  bool  // failing callbacks return (value, err) instead of (nil/false, err)
 	counts map[string]int
 	order  []string // sites in order of invocation (baseline only)
 	fired  []*injected
 	record bool
+	off    bool // the arms are switched off (a fault that is turned on and off between renders)
 }
 
 func (pl *plan) hit(site string) error {
@@ -798,9 +822,12 @@ func (pl *plan) hit(site string) error {
 	if pl.record && len(pl.order) < 4096 {
 		pl.order = append(pl.order, site)
 	}
+	if pl.off {
+		return nil
+	}
 	for _, a := range pl.arms {
-		if a.Site == site && a.Nth == pl.counts[site] {
-			e := &injected{site, a.Nth}
+		if a.Site == site && (a.Nth == pl.counts[site] || a.Nth == 0) {
+			e := &injected{site, pl.counts[site]}
 			pl.fired = append(pl.fired, e)
 			return e
 		}
@@ -811,7 +838,13 @@ func (pl *plan) hit(site string) error {
 type hloader struct {
 	src map[string]string
 	pl  *plan
+	mt  map[string]int64 // modification "times" (tloader only)
 }
+
+// tloader is the harness loader as a TimestampAwareLoader (used with SetAutoReload(true) only)
+type tloader struct{ *hloader }
+
+func (l tloader) GetModifiedTime(n string) (int64, error) { return 1 + l.mt[n], nil }
 
 func (l *hloader) Load(n string) (string, error) {
 	if err := l.pl.hit("L:" + n); err != nil {
@@ -838,9 +871,46 @@ type result struct {
 	err error
 }
 
+// engOpts: engine settings of the repeated-render cases (the zero value is twig's default: cache on)
+type engOpts struct {
+	cacheOff   bool // SetCache(false): every Load asks the loaders again
+	autoReload bool // cache on + SetAutoReload(true) + a TimestampAwareLoader
+}
+
+// session is one engine on which the program's top template is rendered once or several times.
+type session struct {
+	e       *twig.Engine
+	h       *hloader
+	pr      *program
+	mode    string
+	kept    *twig.Template // mode "K": the handle returned by the first successful Engine.Load
+	cleanup func()
+}
+
+func (s *session) close() {
+	if s.cleanup != nil {
+		s.cleanup()
+	}
+}
+
 // run renders the program's top template on a fresh engine.
 func run(pr *program, src map[string]string, mode, variant string, pl *plan) (res result) {
+	s := open(pr, src, mode, variant, pl, engOpts{})
+	defer s.close()
+	return s.render()
+}
+
+// open builds a fresh engine for the program: callbacks, loaders, API-built templates.
+func open(pr *program, src map[string]string, mode, variant string, pl *plan, opts engOpts) *session {
+	ses := &session{pr: pr, mode: mode}
 	e := twig.New()
+	ses.e = e
+	if opts.cacheOff {
+		e.SetCache(false)
+	}
+	if opts.autoReload {
+		e.SetAutoReload(true)
+	}
 	switch mode {
 	case "D", "WD":
 		e.SetDebug(true) // also sets the global log level to DebugInfo
@@ -915,7 +985,8 @@ func run(pr *program, src map[string]string, mode, variant string, pl *plan) (re
 			served[d+"/zzempty"] = ""          // and an empty one
 		}
 	}
-	h := &hloader{src: served, pl: pl}
+	h := &hloader{src: served, pl: pl, mt: map[string]int64{}}
+	ses.h = h
 	empty := func() twig.Loader { return twig.NewArrayLoader(map[string]string{}) }
 	switch variant {
 	case "fs":
@@ -926,7 +997,7 @@ func run(pr *program, src map[string]string, mode, variant string, pl *plan) (re
 		if err != nil {
 			panic(err)
 		}
-		defer os.RemoveAll(tmp)
+		ses.cleanup = func() { os.RemoveAll(tmp) }
 		root := filepath.Join(tmp, "r", "r")
 		names := make([]string, 0, len(served))
 		for n := range served {
@@ -959,7 +1030,11 @@ func run(pr *program, src map[string]string, mode, variant string, pl *plan) (re
 	case "chainafterempty":
 		e.RegisterLoader(twig.NewChainLoader([]twig.Loader{empty(), h}))
 	default:
-		e.RegisterLoader(h)
+		if opts.autoReload {
+			e.RegisterLoader(tloader{h})
+		} else {
+			e.RegisterLoader(h)
+		}
 	}
 	for _, n := range pr.names {
 		s := src[n]
@@ -972,7 +1047,13 @@ func run(pr *program, src map[string]string, mode, variant string, pl *plan) (re
 		root := twig.NewRootNode([]twig.Node{macro}, 1)
 		e.RegisterTemplate(n, e.NewTemplate(n, "", root))
 	}
-	switch mode {
+	return ses
+}
+
+// render renders the top template once in the session's mode.
+func (s *session) render() (res result) {
+	e, pr := s.e, s.pr
+	switch s.mode {
 	case "W", "WD":
 		var b bytes.Buffer
 		res.err = e.RenderTo(&b, pr.top, ctxVars)
@@ -983,6 +1064,16 @@ func run(pr *program, src map[string]string, mode, variant string, pl *plan) (re
 			return result{"", err}
 		}
 		res.out, res.err = t.Render(ctxVars)
+	case "K":
+		// the handle of the top template is loaded once and kept between renders
+		if s.kept == nil {
+			t, err := e.Load(pr.top)
+			if err != nil {
+				return result{"", err}
+			}
+			s.kept = t
+		}
+		res.out, res.err = s.kept.Render(ctxVars)
 	default:
 		res.out, res.err = e.Render(pr.top, ctxVars)
 	}
@@ -1162,12 +1253,9 @@ func chainHas(err, cause error) bool {
 	return false
 }
 
-// nameCase: one reached name is replaced by one that cannot be resolved; for a template name also: by a
-// sibling with a syntax error ("broken"), the referenced template itself gets a syntax error
-// ("brokeninplace"), or (FileSystemLoader) is a directory that cannot be read ("isdir").
-func nameCase(pr *program, mode, variant string, st site, kind string, tolerated bool, faultDesc string) *vlib.Outcome {
-	var src map[string]string
-	repl := kind
+// nameSources materialises the program with one name fault (see nameCase).
+func nameSources(pr *program, st site, kind string) (src map[string]string, repl string) {
+	repl = kind
 	switch kind {
 	case "callback":
 		repl = "zz" + st.Key
@@ -1187,8 +1275,16 @@ func nameCase(pr *program, mode, variant string, st site, kind string, tolerated
 		src = pr.sources(nil, false)
 		src[st.Ref] = fsDir
 	default:
-		panic("nameCase: " + kind)
+		panic("nameSources: " + kind)
 	}
+	return src, repl
+}
+
+// nameCase: one reached name is replaced by one that cannot be resolved; for a template name also: by a
+// sibling with a syntax error ("broken"), the referenced template itself gets a syntax error
+// ("brokeninplace"), or (FileSystemLoader) is a directory that cannot be read ("isdir").
+func nameCase(pr *program, mode, variant string, st site, kind string, tolerated bool, faultDesc string) *vlib.Outcome {
+	src, repl := nameSources(pr, st, kind)
 	pl := newPlan(nil, false)
 	res := run(pr, src, mode, variant, pl)
 	o := &vlib.Outcome{Nontrivial: true, Counters: map[string]int64{"renders": 1}}
